@@ -38,6 +38,15 @@ MAPS = {
         ),
     ),
 }
+# Primary mode with a second curated haplotype: the other haplotypes are merged into an "all_haplotigs" assembly
+MAPS["primary"] = (
+    2.0,
+    (
+        ("Scaffold_1", (("scaffold_1", 1, 140, 1, ("Painted", "Hap1", "Primary")),)),
+        ("Scaffold_2", (("scaffold_2", 1, 50, 1, ("Painted", "Hap2")),)),
+        ("Scaffold_3", (("scaffold_3", 1, 30, 1, ("Painted", "Hap2", "Haplotig")),)),
+    ),
+)
 FORMATS = {"FASTA": "x.fa", "AGP": "x.agp", "TPF": "x.tpf"}
 
 
@@ -69,7 +78,7 @@ class C16(Check):
         for fmt in FORMATS:
             for wl in (True, False):
                 for mk in MAPS:
-                    n = 8 if (fmt == "FASTA" and mk == "multi") else 2
+                    n = 8 if (fmt == "FASTA" and mk in ("multi", "primary")) else 2
                     for c in range(n):
                         out.append((fmt, wl, mk, c, n))
         return out
@@ -247,4 +256,4 @@ class C16(Check):
 _ = Path
 CHECK = C16()
 # scope added in later rounds, kept in the evidence text
-CHECK.rule += ' The pre-existing files also as empty files. The sentinel run again with --log-level ERROR. Pre-existing files also with exactly the bytes the run would write, and as symbolic links to files elsewhere (the link must survive). History: the refused --no-clobber run is repeated at once in the same process and directory with the default --clobber: exit 0 and every file == clean run.'
+CHECK.rule += ' The pre-existing files also as empty files. A third map in Primary mode with a second curated haplotype and a haplotig (merged all_haplotigs assembly). The sentinel run again with --log-level ERROR. Pre-existing files also with exactly the bytes the run would write, and as symbolic links to files elsewhere (the link must survive). History: the refused --no-clobber run is repeated at once in the same process and directory with the default --clobber: exit 0 and every file == clean run.'
